@@ -253,6 +253,50 @@ def run_live(shard, rec, B):
                     roundtrip(rec, B, "gate.live.%s" % how, g, item, desc, True)
                 fmap = PR.spec_map({"kind": how, "mg": cur[0], "mp": cur[1], "qubits": qubits}, N)
                 _forward_value(rec, B, g, N, fmap, rng, desc)
+        # --- the generator is handed over as a monomial with coefficient 1 (a term H[k] of a polynomial is one), through the
+        #     setter and through clifford_rotation_gate
+        if hasattr(B.paulialg, "PauliMonomial"):
+            Gm, Pm = gen.rand_nonid(rng, n), 2 * int(rng.integers(2))
+            for how in ("setter", "constructor"):
+                Mn = B.Pauli(Gm.copy(), Pm).as_monomial()
+                if how == "setter":
+                    gm = C.CliffordGate(*qubits)
+                    gm.set_generator(Mn)
+                    spec = {"kind": "setgen", "G": Gm, "PG": Pm, "qubits": qubits}
+                else:
+                    ok, gm = rec.attempt("gate.live.monomial", [O.show(Gm, Pm), qubits], lambda: C.clifford_rotation_gate(Mn, np.array(qubits)))
+                    if not ok:
+                        continue
+                    spec = {"kind": "genq", "G": Gm, "PG": Pm, "qarray": qubits, "qubits": qubits}
+                for compiled in (False, True):
+                    if compiled:
+                        ok, _ = rec.attempt("gate.compile", [O.show(Gm, Pm)], lambda: gm.compile())
+                        if not ok:
+                            continue
+                    dm = {"N": N, "qubits": qubits, "gen": O.show(Gm, Pm), "given_as": "PauliMonomial via " + how, "compiled": compiled}
+                    for item in ins[:3]:
+                        roundtrip(rec, B, "gate.live.monomial", gm, item, dm, True)
+                    _forward_value(rec, B, gm, N, PR.spec_map(spec, N), rng, dm)
+        # --- a map slot specified twice before the gate is ever used (the later one counts), and a named gate re-purposed
+        F1, F2 = O.random_map(rng, n), O.random_map(rng, n)
+        for how in ("fmap.twice", "bmap.twice", "named.repurposed"):
+            if how == "named.repurposed":
+                if n != 1 or B.name != "np":
+                    continue
+                g2 = C.H(qubits[0])
+                g2.backward_map = None
+                g2.set_forward_map(B.Map(F2[0].copy(), F2[1].copy()))
+                kind = "fmap"
+            else:
+                g2 = C.CliffordGate(*qubits)
+                setter = g2.set_forward_map if how.startswith("fmap") else g2.set_backward_map
+                setter(B.Map(F1[0].copy(), F1[1].copy()))
+                setter(B.Map(F2[0].copy(), F2[1].copy()))
+                kind = how[:4]
+            d2 = {"N": N, "qubits": qubits, "how": how, "map": [O.show(a, b) for a, b in zip(F2[0], F2[1])]}
+            for item in ins[:3]:
+                roundtrip(rec, B, "gate.live.respecified", g2, item, d2, True)
+            _forward_value(rec, B, g2, N, PR.spec_map({"kind": kind, "mg": F2[0], "mp": F2[1], "qubits": qubits}, N), rng, d2)
         # --- a rotation gate that has run in both directions gets another generator: through the setter, by writing the
         #     attribute (what the library's own constructors do), or because the Pauli it holds is edited in place by its owner
         G1, P1 = gen.rand_nonid(rng, n), 2 * int(rng.integers(2))
